@@ -27,6 +27,8 @@ def vote_sites(prog, kind):
 
 
 def check(run, prefix="O5"):
+    from . import slots as _SL
+    _SL.ob_slot_arithmetic(run, prefix + ".13")
     from . import detectors as _DL
     _DL.ob_loop_exits(run, prefix + ".12", ['consensus::votor'], 'the voting rules are applied to every pending slot / block of a window: a loop that stops early leaves slots unvoted')
     # "fallback votes only after the safe-to-notar / safe-to-skip condition held at that node": the Votor acts on the pool's events,
